@@ -220,6 +220,63 @@ def rpcGovBatch (st : Store) (govChain : Nat) (govAddr : Bytes) (seqs : List Nat
     | none => .error .internal
     | some l => .ok l
 
+/-! ## reads that fail under the running server
+
+The handle the RPC server holds can fail a read with an error that is NOT `ErrVAANotFound` (badger `ErrDBClosed` while the node
+shuts down and the gRPC server still accepts calls, an I/O error on one record).  `rd id = false`: the read of that identifier
+fails during this call.  The pinned handlers turn such an error into `codes.Internal` — for the batch at the first sequence whose
+read fails, nothing of the batch is answered. -/
+
+abbrev Readable := VaaId → Bool
+
+/-- `GetSignedVAABytes` under read failures: `none` = an error other than not-found. -/
+def getAt (rd : Readable) (st : Store) (id : VaaId) : Option (Option Bytes) :=
+  if rd id then some (getSignedVAABytes st id) else none
+
+/-- `GetSignedVAA` (publicrpcserver.go:84-112) with the error branch that is not `ErrVAANotFound`. -/
+def rpcGetSignedVAAAt (rd : Readable) (st : Store) (hasId : Bool) (ec : Int) (addr : List Char) (tc : Int) (seq : Nat) : Except RpcErr Bytes :=
+  if !hasId then .error .noId
+  else
+    match decodeEmitterAddress addr with
+    | .error e => .error e
+    | .ok a =>
+      match getAt rd st ⟨narrow16 ec, a, narrow16 tc, seq⟩ with
+      | none => .error .internal
+      | some none => .error .notFound
+      | some (some b) => .ok b
+
+/-- The loop of `GetNonGovernanceVAABatch` (publicrpcserver.go:133-153): not-found is skipped, any other error fails the call. -/
+def batchLoopAt (rd : Readable) (st : Store) (mk : Nat → VaaId) : List Nat → Except RpcErr (List (Nat × Bytes))
+  | [] => .ok []
+  | s :: r =>
+    match getAt rd st (mk s) with
+    | none => .error .internal
+    | some none => batchLoopAt rd st mk r
+    | some (some b) =>
+      match batchLoopAt rd st mk r with
+      | .error e => .error e
+      | .ok l => .ok ((s, b) :: l)
+
+def rpcNonGovBatchAt (rd : Readable) (st : Store) (ec : Int) (addr : List Char) (tc : Int) (seqs : List Nat) : Except RpcErr (List (Nat × Bytes)) :=
+  if seqs.length > 20 then .error .batchSize
+  else
+    match decodeEmitterAddress addr with
+    | .error e => .error e
+    | .ok a => batchLoopAt rd st (fun s => ⟨narrow16 ec, a, narrow16 tc, s⟩) seqs
+
+/-- The variant that logs and skips EVERY lookup error (not only not-found): what the batch answers then. Not the pinned code —
+kept to state what goes wrong with it (`C12.rpc_batch_skip_errors_witness`). -/
+def batchLoopSkip (rd : Readable) (st : Store) (mk : Nat → VaaId) (seqs : List Nat) : List (Nat × Bytes) :=
+  seqs.filterMap fun s => match getAt rd st (mk s) with
+    | some (some b) => some (s, b)
+    | _ => none
+
+/-- `GetGovernanceVAABatch` when the scan may fail as a whole (`up = false`: `db.View` returns an error). -/
+def rpcGovBatchAt (up : Bool) (st : Store) (govChain : Nat) (govAddr : Bytes) (seqs : List Nat) : Except RpcErr (List GovEntry) :=
+  if seqs.length > 20 then .error .batchSize
+  else if !up then .error .internal
+  else rpcGovBatch st govChain govAddr seqs
+
 /-! ## adminserver.go -/
 
 /-- `copy(emitterAddress[:], b)` into a zeroed `[32]byte`: right-padded with zeros or cut to 32 bytes. -/
